@@ -121,12 +121,13 @@ func c13Scenarios() []c13Scenario {
 
 type c13Case struct {
 	Scenario string `json:"scenario"`
-	// Mode: baseline | fail-op | short-read | partial-read | ending | pair
+	// Mode: baseline | fail-op | short-read | partial-read | partial-list | ending | pair
 	Mode   string `json:"mode"`
 	K      int    `json:"k"`      // op / read index, or prefix length for endings
 	K2     int    `json:"k2"`     // second fault (pair) ; -1 none
 	Errno  int    `json:"errno"`  // injected error
 	Ending string `json:"ending"` // halfclose | close | rst | truncated | unknown | timeout
+	PartN  int    `json:"part_n,omitempty"` // partial-list: entries handed out together with the error
 	// generated scenario (thorough): requests carried in the case
 	Reqs       []hx.Req `json:"reqs,omitempty"`
 	AllowWrite bool     `json:"allow_write,omitempty"`
@@ -168,6 +169,7 @@ type c13Result struct {
 	ops, reads int
 	fired      []string
 	openAtFire int
+	oplog      []string
 }
 
 func runC13Once(c c13Case, st *hx.Stats) (*c13Result, error) {
@@ -187,7 +189,8 @@ func runC13With(c c13Case, st *hx.Stats, readTimeout time.Duration) (*c13Result,
 	}
 	led := hx.NewLedger()
 	switch c.Mode {
-	case "fail-op", "pair":
+	case "fail-op", "pair", "partial-list":
+		led.PartialDir, led.PartialN = c.Mode == "partial-list", c.PartN
 		led.FailAt = c.K
 		led.FailErr = syscall.Errno(c.Errno)
 		if c.Mode == "pair" {
@@ -344,7 +347,7 @@ func runC13With(c c13Case, st *hx.Stats, readTimeout time.Duration) (*c13Result,
 		return nil, hx.Failf("handles-released", "handles still open after the probe connection: %v", l2)
 	}
 	ops, reads, fired := led.Snapshot()
-	return &c13Result{ops: ops, reads: reads, fired: fired, openAtFire: led.OpenAtFire}, nil
+	return &c13Result{ops: ops, reads: reads, fired: fired, openAtFire: led.OpenAtFire, oplog: led.OpLogCopy()}, nil
 }
 
 func orDefault(s, d string) string {
@@ -421,6 +424,14 @@ func TestC13Enum(t *testing.T) {
 				if !yield(c13Case{Scenario: sc.Name, Mode: "fail-op", K: k, K2: -1, Errno: errnos[k%len(errnos)]}) {
 					return
 				}
+				// a directory read that fails half-way: some entries AND an error
+				if k < len(base.oplog) && strings.HasPrefix(base.oplog[k], "readdir") {
+					for pn := 1; pn <= 4; pn++ {
+						if !yield(c13Case{Scenario: sc.Name, Mode: "partial-list", K: k, K2: -1, Errno: int(syscall.EIO), PartN: pn}) {
+							return
+						}
+					}
+				}
 			}
 			for k := 0; k < base.reads; k++ {
 				if !yield(c13Case{Scenario: sc.Name, Mode: "short-read", K: k, K2: -1}) {
@@ -483,6 +494,13 @@ func TestC13Random(t *testing.T) {
 			c.Mode, c.K, c.Ending = "ending", rapid.IntRange(0, n).Draw(t, "prefix"), rapid.SampledFrom([]string{"halfclose", "close", "rst", "truncated", "unknown"}).Draw(t, "ending")
 		case 1:
 			c.Mode, c.K = "short-read", rapid.IntRange(0, 40).Draw(t, "k")
+		case 2:
+			if rapid.Bool().Draw(t, "partial") {
+				c.Mode, c.K = "partial-read", rapid.IntRange(0, 40).Draw(t, "k")
+			} else {
+				// failing directory reads hand out the entries read so far (other operations fail as usual)
+				c.Mode, c.K, c.Errno, c.PartN = "partial-list", rapid.IntRange(0, 120).Draw(t, "k"), int(syscall.EIO), rapid.IntRange(1, 5).Draw(t, "part_n")
+			}
 		default:
 			c.Mode, c.K, c.Errno = "fail-op", rapid.IntRange(0, 120).Draw(t, "k"), rapid.SampledFrom([]int{int(syscall.EIO), int(syscall.EACCES), int(syscall.ENOENT)}).Draw(t, "errno")
 		}
